@@ -1,6 +1,6 @@
 (* Proofs about the error-faithful typed unpackers (ErrsTy.v). *)
 From Coq Require Import List String Ascii ZArith Bool Lia.
-From Verif Require Import Core TyModel TyProofs Errs ErrsProofs ErrsTy.
+From Verif Require Import Core TupleIdx TyModel TyProofs Errs ErrsProofs ErrsTy.
 Import ListNotations.
 Open Scope string_scope.
 Open Scope list_scope.
@@ -8,6 +8,7 @@ Open Scope list_scope.
 Section Typed.
   Variable E : senv.
   Variable Q : eprims.
+  Variable CF : string -> tcfg.
 
   Lemma look_d_lookup {D} (g: pv -> D) (kvs: list (pv * pv)) n :
     look (map (fun p => match p with (key, x) => (key, g x) end) kvs) n = option_map g (d_lookup kvs (VStr n)).
@@ -25,16 +26,32 @@ Section Typed.
     - exact IH.
   Qed.
 
-  Lemma lookup_field_of kvs f : lookup_field kvs (fspec_of E Q f) = d_lookup kvs (VStr (sf_name f)).
-  Proof. unfold lookup_field, fspec_of. cbn. destruct (d_lookup kvs (VStr (sf_name f))); reflexivity. Qed.
+  (* the two-step key read of the typed interpreter is Errs.lookup_field *)
+  Lemma look2_lookup_field {D} (g: pv -> D) kvs cf f :
+    match look (map (fun p => match p with (key, x) => (key, g x) end) kvs) (f_key cf f) with
+    | Some p => Some p
+    | None => match f_key2 cf f with
+              | Some k2 => look (map (fun p => match p with (key, x) => (key, g x) end) kvs) k2
+              | None => None end
+    end = option_map g (lookup_field kvs (fspec_of E Q CF cf f)).
+  Proof.
+    unfold lookup_field. cbn [fspec_of fs_key fs_key2]. rewrite !look_d_lookup.
+    destruct (d_lookup kvs (VStr (f_key cf f))); cbn [option_map]; [reflexivity|].
+    destruct (f_key2 cf f); [rewrite look_d_lookup|]; reflexivity.
+  Qed.
 
   (* the field loop of the typed interpreter is the field loop of Errs.v *)
-  Lemma ue_fields kvs c fds :
+  Lemma ue_fields kvs c cf fds :
     (fix go (fds: list sfield) : res (list (string * pv)) :=
        match fds with
        | [] => Ok []
        | f :: rest =>
-           y <- match look (map (fun p => match p with (key, x) => (key, (x, ue E Q x)) end) kvs) (sf_name f) with
+           y <- match (match look (map (fun p => match p with (key, x) => (key, (x, ue E Q CF x)) end) kvs) (f_key cf f) with
+                       | Some p => Some p
+                       | None => match f_key2 cf f with
+                                 | Some k2 => look (map (fun p => match p with (key, x) => (key, (x, ue E Q CF x)) end) kvs) k2
+                                 | None => None end
+                       end) with
                 | Some (x, dx) =>
                     if is_none x && sfield_nullable f then Ok VNone
                     else match dx (cu false (sf_ty f)) with
@@ -46,95 +63,126 @@ Section Typed.
                 end ;;
            tl <- go rest ;; Ok ((sf_name f, y) :: tl)
        end) fds
-    = match first_bad kvs (map (fspec_of E Q) fds) with
+    = match first_bad kvs (map (fspec_of E Q CF cf) fds) with
       | Some (f, b) => Exn (exn_of_bad c f b)
-      | None => Ok (map (fun f => (fs_name f, good_value kvs f)) (map (fspec_of E Q) fds)) end.
+      | None => Ok (map (fun f => (fs_name f, good_value kvs f)) (map (fspec_of E Q CF cf) fds)) end.
   Proof.
     induction fds as [|f rest IH]; [reflexivity|].
     cbn [map first_bad]. rewrite IH. clear IH.
-    rewrite (look_d_lookup (fun x => (x, ue E Q x))).
-    unfold field_bad, good_value. rewrite lookup_field_of.
-    destruct (d_lookup kvs (VStr (sf_name f))) as [x|]; cbn [option_map].
+    rewrite (look2_lookup_field (fun x => (x, ue E Q CF x))).
+    unfold field_bad, good_value.
+    destruct (lookup_field kvs (fspec_of E Q CF cf f)) as [x|]; cbn [option_map].
     - cbn [fs_ident fspec_of fs_nullable fs_dec fs_name]. rewrite (andb_comm (is_none x)).
       destruct (sfield_nullable f && is_none x).
-      + cbn [bind]. destruct (first_bad kvs (map (fspec_of E Q) rest)) as [[g b]|]; reflexivity.
-      + destruct (ue E Q x (cu false (sf_ty f))) as [y|e]; cbn [bind]; [|reflexivity].
-        destruct (first_bad kvs (map (fspec_of E Q) rest)) as [[g b]|]; reflexivity.
+      + cbn [bind]. destruct (first_bad kvs (map (fspec_of E Q CF cf) rest)) as [[g b]|]; reflexivity.
+      + destruct (ue E Q CF x (cu false (sf_ty f))) as [y|e]; cbn [bind]; [|reflexivity].
+        destruct (first_bad kvs (map (fspec_of E Q CF cf) rest)) as [[g b]|]; reflexivity.
     - unfold Errs.has_default. cbn [fspec_of fs_default fs_name].
       destruct (sf_default f) as [dv|]; cbn [bind opt_default]; [|reflexivity].
-      destruct (first_bad kvs (map (fspec_of E Q) rest)) as [[g b]|]; reflexivity.
+      destruct (first_bad kvs (map (fspec_of E Q CF cf) rest)) as [[g b]|]; reflexivity.
   Qed.
 
-  Lemma cspec_plain k : plain (cspec_of E Q k).
+  Lemma cspec_plain k : plain (cspec_of E Q CF k).
   Proof. split; reflexivity. Qed.
 
-  (* LINK: a dataclass position of the typed interpreter IS Errs.from_dict of that class with the typed
-     unpackers as field decoders *)
+  Lemma allowed_of_cspec k :
+    allowed_keys (cspec_of E Q CF k) = allowed_of (CF (sc_name k)) (sc_fields k).
+  Proof.
+    unfold allowed_keys, allowed_of. cbn [cspec_of cs_fields cs_discr_keys]. rewrite app_nil_r.
+    induction (sc_fields k) as [|f r IH]; [reflexivity|].
+    cbn [map flat_map]. rewrite IH. reflexivity.
+  Qed.
+
+  Lemma extras_of_cspec k kvs :
+    extra_keys (cspec_of E Q CF k) kvs = extras_of (CF (sc_name k)) (sc_fields k) kvs.
+  Proof.
+    unfold extra_keys, extras_of, key_allowed. rewrite allowed_of_cspec. reflexivity.
+  Qed.
+
+  (* LINK: a dataclass position of the typed interpreter IS Errs.from_dict of that class (its Config included)
+     with the typed unpackers as field decoders *)
   Theorem ue_data_from_dict : forall c k d, sfind E KData c = Some k ->
-    ue E Q d (UData c) = from_dict (cspec_of E Q k) d.
+    ue E Q CF d (UData c) = from_dict (cspec_of E Q CF k) d.
   Proof.
     intros c k d Hf. pose proof (sfind_name _ _ _ Hf) as Hn.
     destruct d; try (cbn [ue]; rewrite Hf; symmetry; apply from_dict_nonmapping; [apply cspec_plain|reflexivity]).
-    cbn [ue]. rewrite Hf. rewrite ue_fields.
+    cbn [ue]. rewrite Hf.
     rewrite from_dict_dict by apply cspec_plain.
-    cbn [cspec_of cs_forbid_extra andb cs_fields cs_name]. rewrite Hn.
-    destruct (first_bad kvs (map (fspec_of E Q) (sc_fields k))) as [[f b]|]; [reflexivity|].
+    rewrite extras_of_cspec. cbn [cspec_of cs_forbid_extra cs_fields cs_name]. rewrite Hn.
+    destruct (tc_forbid (CF c) && negb match extras_of (CF c) (sc_fields k) kvs with [] => true | _ :: _ => false end);
+      [reflexivity|].
+    rewrite ue_fields.
+    destruct (first_bad kvs (map (fspec_of E Q CF (CF c)) (sc_fields k))) as [[f b]|]; [reflexivity|].
     cbn [bind]. unfold good_instance. cbn [cspec_of cs_name cs_fields]. rewrite Hn. reflexivity.
   Qed.
 
   (* hence every C05 statement of the field-loop level holds for typed schemas, at every nesting depth *)
   Theorem typed_outcomes : forall c k d, sfind E KData c = Some k ->
-    documented (cspec_of E Q k) d (ue E Q d (UData c)).
+    documented (cspec_of E Q CF k) d (ue E Q CF d (UData c)).
   Proof. intros c k d Hf. rewrite (ue_data_from_dict _ _ _ Hf). apply outcomes. apply cspec_plain. Qed.
 
   Theorem typed_first_bad : forall c k kvs pre f post b, sfind E KData c = Some k ->
-    map (fspec_of E Q) (sc_fields k) = pre ++ f :: post ->
+    map (fspec_of E Q CF (CF c)) (sc_fields k) = pre ++ f :: post ->
+    (tc_forbid (CF c) = true -> extras_of (CF c) (sc_fields k) kvs = []) ->
     Forall (fun g => field_bad kvs g = None) pre -> field_bad kvs f = Some b ->
-    ue E Q (VDict kvs) (UData c) = Exn (exn_of_bad c f b).
+    ue E Q CF (VDict kvs) (UData c) = Exn (exn_of_bad c f b).
   Proof.
-    intros c k kvs pre f post b Hf Hs Hp Hb. rewrite (ue_data_from_dict _ _ _ Hf).
-    rewrite <- (sfind_name _ _ _ Hf).
-    apply (first_bad_decides (cspec_of E Q k) kvs pre f post b); auto.
+    intros c k kvs pre f post b Hf Hs Hx Hp Hb. rewrite (ue_data_from_dict _ _ _ Hf).
+    pose proof (sfind_name _ _ _ Hf) as Hn. rewrite <- Hn.
+    apply (first_bad_decides (cspec_of E Q CF k) kvs pre f post b); auto.
     - apply cspec_plain.
-    - cbn. discriminate.
+    - cbn [cspec_of cs_fields]. rewrite Hn. exact Hs.
+    - rewrite extras_of_cspec. cbn [cspec_of cs_forbid_extra]. rewrite Hn. exact Hx.
+  Qed.
+
+  Theorem typed_extra_exact : forall c k kvs, sfind E KData c = Some k ->
+    tc_forbid (CF c) = true -> extras_of (CF c) (sc_fields k) kvs <> [] ->
+    ue E Q CF (VDict kvs) (UData c) = Exn (XExtraKeys (extras_of (CF c) (sc_fields k) kvs) c).
+  Proof.
+    intros c k kvs Hf Hfb Hx. rewrite (ue_data_from_dict _ _ _ Hf).
+    pose proof (sfind_name _ _ _ Hf) as Hn.
+    rewrite (extra_exact (cspec_of E Q CF k) kvs (cspec_plain k)).
+    - rewrite extras_of_cspec. cbn [cspec_of cs_name]. rewrite Hn. reflexivity.
+    - cbn [cspec_of cs_forbid_extra]. rewrite Hn. exact Hfb.
+    - rewrite extras_of_cspec. rewrite Hn. exact Hx.
   Qed.
 
   (* the cause: InvalidFieldValue is raised while handling the exception of that field's own unpacker *)
   Theorem typed_cause : forall c k kvs fn v h, sfind E KData c = Some k ->
-    ue E Q (VDict kvs) (UData c) = Exn (XInvalidFieldValue fn v h) ->
+    ue E Q CF (VDict kvs) (UData c) = Exn (XInvalidFieldValue fn v h) ->
     exists f e, In f (sc_fields k) /\ fn = sf_name f /\ h = c /\
-                d_lookup kvs (VStr (sf_name f)) = Some v /\
-                ue E Q v (cu false (sf_ty f)) = Exn e /\
-                ue_cause E Q k (VDict kvs) = Some e.
+                lookup_field kvs (fspec_of E Q CF (CF c) f) = Some v /\
+                ue E Q CF v (cu false (sf_ty f)) = Exn e /\
+                ue_cause E Q CF k (VDict kvs) = Some e.
   Proof.
-    intros c k kvs fn v h Hf H. rewrite (ue_data_from_dict _ _ _ Hf) in H.
+    intros c k kvs fn v h Hf H. pose proof (sfind_name _ _ _ Hf) as Hn.
+    rewrite (ue_data_from_dict _ _ _ Hf) in H.
     rewrite from_dict_dict in H by apply cspec_plain.
-    cbn [cspec_of cs_forbid_extra andb cs_fields cs_name] in H.
-    destruct (first_bad kvs (map (fspec_of E Q) (sc_fields k))) as [[g b]|] eqn:Efb; [|discriminate].
+    rewrite extras_of_cspec in H. cbn [cspec_of cs_forbid_extra cs_fields cs_name] in H. rewrite Hn in H.
+    destruct (tc_forbid (CF c) && negb match extras_of (CF c) (sc_fields k) kvs with [] => true | _ :: _ => false end) eqn:Efx;
+      [discriminate|].
+    destruct (first_bad kvs (map (fspec_of E Q CF (CF c)) (sc_fields k))) as [[g b]|] eqn:Efb; [|discriminate].
     destruct (first_bad_split _ _ _ _ Efb) as [pre [post [Hs [_ Hb]]]].
     pose proof (first_bad_in _ _ _ _ Efb) as Hin. apply in_map_iff in Hin. destruct Hin as [f [Hg Hin]].
     subst g. destruct b as [|w]; cbn [exn_of_bad] in H; [discriminate|].
-    inversion H; subst. clear H.
-    unfold field_bad in Hb. rewrite lookup_field_of in Hb.
-    destruct (d_lookup kvs (VStr (sf_name f))) as [x|] eqn:El.
-    2:{ destruct (Errs.has_default (fspec_of E Q f)); discriminate. }
+    inversion H; subst fn w h. clear H.
+    unfold field_bad in Hb.
+    destruct (lookup_field kvs (fspec_of E Q CF (CF c) f)) as [x|] eqn:El.
+    2:{ destruct (Errs.has_default (fspec_of E Q CF (CF c) f)); discriminate. }
     cbn [fspec_of fs_ident fs_nullable fs_dec] in Hb.
     destruct (sfield_nullable f && is_none x); [discriminate|].
-    destruct (ue E Q x (cu false (sf_ty f))) as [y|e] eqn:Ed; [discriminate|].
-    inversion Hb; subst. exists f, e. repeat split; auto.
-    - apply sfind_name in Hf. exact Hf.
-    - unfold ue_cause. rewrite Efb. cbn [fspec_of fs_dec]. rewrite Ed. reflexivity.
+    destruct (ue E Q CF x (cu false (sf_ty f))) as [y|e] eqn:Ed; [discriminate|].
+    injection Hb as Hxv. subst x. exists f, e. repeat split; auto.
+    unfold ue_cause. rewrite Hn, Efx, Efb. cbn [fspec_of fs_dec]. rewrite Ed. reflexivity.
   Qed.
 
   (* nested dataclass: the cause is itself one of the inner class's documented outcomes *)
-  Theorem typed_nested_cause : forall c k kvs fn v h f e c2 k2,
-    sfind E KData c = Some k ->
-    ue E Q (VDict kvs) (UData c) = Exn (XInvalidFieldValue fn v h) ->
-    In f (sc_fields k) -> fn = sf_name f -> cu false (sf_ty f) = UData c2 -> sfind E KData c2 = Some k2 ->
-    ue E Q v (cu false (sf_ty f)) = Exn e ->
-    documented (cspec_of E Q k2) v (Exn e).
+  Theorem typed_nested_cause : forall v f e c2 k2,
+    cu false (sf_ty f) = UData c2 -> sfind E KData c2 = Some k2 ->
+    ue E Q CF v (cu false (sf_ty f)) = Exn e ->
+    documented (cspec_of E Q CF k2) v (Exn e).
   Proof.
-    intros c k kvs fn v h f e c2 k2 Hf H Hin Hn Hu Hf2 He.
+    intros v f e c2 k2 Hu Hf2 He.
     rewrite Hu in He. rewrite <- He. apply typed_outcomes. exact Hf2.
   Qed.
 
@@ -158,42 +206,42 @@ Section Typed.
 
   (* List[T] on a list: the only exceptions are those of an element's unpacker, unchanged;
      on success every element is the unpacker's result for the corresponding input item *)
-  Theorem list_exn : forall l u e, ue E Q (VList l) (UListComp u) = Exn e ->
-    exists x, In x l /\ ue E Q x u = Exn e.
+  Theorem list_exn : forall l u e, ue E Q CF (VList l) (UListComp u) = Exn e ->
+    exists x, In x l /\ ue E Q CF x u = Exn e.
   Proof.
     intros l u e H. cbn [ue] in H.
-    destruct (mapM (fun x => ue E Q x u) l) as [r|e'] eqn:Em; cbn [bind] in H; [discriminate|].
-    inversion H; subst. apply (mapM_exn (fun x => ue E Q x u)). exact Em.
+    destruct (mapM (fun x => ue E Q CF x u) l) as [r|e'] eqn:Em; cbn [bind] in H; [discriminate|].
+    inversion H; subst. apply (mapM_exn (fun x => ue E Q CF x u)). exact Em.
   Qed.
 
-  Theorem list_ok : forall l u r, ue E Q (VList l) (UListComp u) = Ok r ->
-    exists ys, r = VList ys /\ Forall2 (fun x y => ue E Q x u = Ok y) l ys.
+  Theorem list_ok : forall l u r, ue E Q CF (VList l) (UListComp u) = Ok r ->
+    exists ys, r = VList ys /\ Forall2 (fun x y => ue E Q CF x u = Ok y) l ys.
   Proof.
     intros l u r H. cbn [ue] in H.
-    destruct (mapM (fun x => ue E Q x u) l) as [ys|e'] eqn:Em; cbn [bind] in H; [|discriminate].
-    inversion H; subst. exists ys. split; [reflexivity|]. apply (mapM_ok (fun x => ue E Q x u)). exact Em.
+    destruct (mapM (fun x => ue E Q CF x u) l) as [ys|e'] eqn:Em; cbn [bind] in H; [|discriminate].
+    inversion H; subst. exists ys. split; [reflexivity|]. apply (mapM_ok (fun x => ue E Q CF x u)). exact Em.
   Qed.
 
   Theorem list_not_iterable : forall d u,
     match d with VNone | VBool _ | VInt _ | VFloat _ => True | _ => False end ->
-    ue E Q d (UListComp u) = Exn XTypeError.
+    ue E Q CF d (UListComp u) = Exn XTypeError.
   Proof. intros d u H. destruct d; try contradiction; reflexivity. Qed.
 
-  Theorem dict_not_mapping : forall d ku vu, is_dict d = false -> ue E Q d (UDictComp ku vu) = Exn XAttributeError.
+  Theorem dict_not_mapping : forall d ku vu, is_dict d = false -> ue E Q CF d (UDictComp ku vu) = Exn XAttributeError.
   Proof. intros d ku vu H. destruct d; try reflexivity. discriminate H. Qed.
 
-  Theorem dict_exn : forall kvs ku vu e, ue E Q (VDict kvs) (UDictComp ku vu) = Exn e ->
+  Theorem dict_exn : forall kvs ku vu e, ue E Q CF (VDict kvs) (UDictComp ku vu) = Exn e ->
     exists k x, In (k, x) kvs /\
-      (ue E Q k ku = Exn e \/ ue E Q x vu = Exn e \/
-       (e = XTypeError /\ exists k', ue E Q k ku = Ok k' /\ hashable k' = false)).
+      (ue E Q CF k ku = Exn e \/ ue E Q CF x vu = Exn e \/
+       (e = XTypeError /\ exists k', ue E Q CF k ku = Ok k' /\ hashable k' = false)).
   Proof.
     intros kvs ku vu e H. cbn [ue] in H.
     match type of H with context [mapM ?f kvs] => destruct (mapM f kvs) as [r|e'] eqn:Em; cbn [bind] in H end;
       [discriminate|].
     inversion H; subst. apply mapM_exn in Em. destruct Em as [[k x] [Hin Hx]].
     exists k, x. split; [exact Hin|].
-    destruct (ue E Q k ku) as [k'|ek]; cbn [bind] in Hx.
-    - destruct (ue E Q x vu) as [x'|ex]; cbn [bind] in Hx.
+    destruct (ue E Q CF k ku) as [k'|ek]; cbn [bind] in Hx.
+    - destruct (ue E Q CF x vu) as [x'|ex]; cbn [bind] in Hx.
       + destruct (hashable k') eqn:Eh; [discriminate|]. inversion Hx; subst.
         right; right. split; [reflexivity|]. exists k'. auto.
       + inversion Hx; subst. right; left. reflexivity.
@@ -234,10 +282,10 @@ Section Typed.
 
   Theorem namedtuple_no_silent_default : forall c k l r,
     sfind E KNamed c = Some k ->
-    ue E Q (VList l) (UNamed c) = Ok r ->
+    ue E Q CF (VList l) (UNamed c) = Ok r ->
     exists items, r = VNT c items /\
       forall i x f, nth_error l i = Some x -> nth_error (sc_fields k) i = Some f ->
-        exists y, ue E Q x (cu true (sf_ty f)) = Ok y /\ nth_error items i = Some y.
+        exists y, ue E Q CF x (cu true (sf_ty f)) = Ok y /\ nth_error items i = Some y.
   Proof.
     intros c k l r Hf H. cbn [ue] in H. rewrite Hf in H.
     match type of H with context [nt_items ?run ?ko ?mi (sc_fields k) l] =>
@@ -251,10 +299,10 @@ Section Typed.
      exceptions come from exhaustion (IndexError without defaults / TypeError for a required field) *)
   Theorem namedtuple_exn : forall c k l e,
     sfind E KNamed c = Some k ->
-    ue E Q (VList l) (UNamed c) = Exn e ->
+    ue E Q CF (VList l) (UNamed c) = Exn e ->
     (exists i x f, nth_error l i = Some x /\ nth_error (sc_fields k) i = Some f /\
-                   ue E Q x (cu true (sf_ty f)) = Exn e) \/
-    (exists rest, nt_tail konst_u (nt_exhausted (TyModel.has_default (sc_fields k))) rest = Exn e).
+                   ue E Q CF x (cu true (sf_ty f)) = Exn e) \/
+    (exists rest, nt_tail (konst_u E) (nt_exhausted (TyModel.has_default (sc_fields k))) rest = Exn e).
   Proof.
     intros c k l e Hf H. cbn [ue] in H. rewrite Hf in H.
     match type of H with context [nt_items ?run ?ko ?mi (sc_fields k) l] =>
@@ -263,22 +311,22 @@ Section Typed.
   Qed.
 
   (* ---------------------------------------------------------------- fixed tuples on a list *)
-  Theorem tuplefix_exn : forall us l e, ue E Q (VList l) (UTupleFix us) = Exn e ->
-    (exists i x u, nth_error l i = Some x /\ nth_error us i = Some u /\ ue E Q x u = Exn e) \/
+  Theorem tuplefix_exn : forall us l e, ue E Q CF (VList l) (UTupleFix us) = Exn e ->
+    (exists i x u, nth_error l i = Some x /\ nth_error us i = Some u /\ ue E Q CF x u = Exn e) \/
     (e = XIndexError /\ (List.length l < List.length us)%nat).
   Proof.
     intros us l e H. cbn [ue] in H.
     match type of H with context [(?g us l)] =>
       assert (Hg: forall l us e, g us l = Exn e ->
-                (exists i x u, nth_error l i = Some x /\ nth_error us i = Some u /\ ue E Q x u = Exn e) \/
+                (exists i x u, nth_error l i = Some x /\ nth_error us i = Some u /\ ue E Q CF x u = Exn e) \/
                 (e = XIndexError /\ (List.length l < List.length us)%nat)) end.
     { clear. induction l as [|x l IH]; intros us e H.
       - destruct us as [|u us]; [discriminate|]. right. split; [|cbn; lia].
         clear -H. revert e H. generalize (u :: us). intros us0. induction us0 as [|u0 r IH]; intros e H; [discriminate|].
-        cbn [none_tail] in H. destruct (const_dec u0); [|inversion H; reflexivity].
-        destruct (none_tail r) as [ys|e1]; cbn [bind] in H; [discriminate|]. inversion H; subst. apply IH. reflexivity.
+        cbn [none_tail] in H. destruct (const_dec E u0); [|inversion H; reflexivity].
+        destruct (none_tail E r) as [ys|e1]; cbn [bind] in H; [discriminate|]. inversion H; subst. apply IH. reflexivity.
       - destruct us as [|u us]; [discriminate|].
-        destruct (ue E Q x u) as [y|e0] eqn:Ex; cbn [bind] in H.
+        destruct (ue E Q CF x u) as [y|e0] eqn:Ex; cbn [bind] in H.
         + match type of H with context [(?g us l)] => destruct (g us l) as [ys|e1] eqn:Eg end; cbn [bind] in H; [discriminate|].
           inversion H; subst. destruct (IH us e Eg) as [[i [x' [u' [Hl [Hu Hx]]]]]|[He Hlen]].
           * left. exists (S i), x', u'. auto.
@@ -319,17 +367,89 @@ Section Typed.
 
   Theorem typeddict_exn : forall c k kvs e,
     sfind E KTyped c = Some k ->
-    ue E Q (VDict kvs) (UTyped c) = Exn e ->
+    ue E Q CF (VDict kvs) (UTyped c) = Exn e ->
     e = XKeyError \/
     exists f x, In f (sc_fields k) /\ d_lookup kvs (VStr (sf_name f)) = Some x /\
-                ue E Q x (cu true (sf_ty f)) = Exn e.
+                ue E Q CF x (cu true (sf_ty f)) = Exn e.
   Proof.
     intros c k kvs e Hf H. cbn [ue] in H. rewrite Hf in H.
     match type of H with context [td_go ?run ?ko ?mi ?es ?fds] =>
       destruct (td_go run ko mi es fds) as [r|e'] eqn:Et; cbn [bind] in H end; [discriminate|].
     inversion H; subst. apply td_go_exn in Et. destruct Et as [Hm|[f [dx [Hin [Hl Hr]]]]]; [left; exact Hm|].
-    right. rewrite (look_d_lookup (ue E Q)) in Hl.
+    right. rewrite (look_d_lookup (ue E Q CF)) in Hl.
     destruct (d_lookup kvs (VStr (sf_name f))) as [x|] eqn:Ed; [|discriminate].
     cbn [option_map] in Hl. inversion Hl; subst. exists f, x. split; [apply In_td_order; exact Hin|auto].
+  Qed.
+
+  (* ---------------------------------------------------------------- tuples with an unpacked segment, on a list *)
+  Lemma nth_signed_In {A} (l: list A) i x : nth_signed l i = Some x -> In x l.
+  Proof.
+    unfold nth_signed. destruct (_ || _); [discriminate|]. apply nth_error_In.
+  Qed.
+
+  Lemma tu_ones_exn {T X} (run: T -> X -> res pv) konst (l: list X) : forall ds plan e,
+    tu_ones run konst (Some l) plan ds = Exn e ->
+    e = XIndexError \/ e = XTypeError \/ exists d x, In d ds /\ In x l /\ run d x = Exn e.
+  Proof.
+    induction ds as [|d ds IH]; intros plan e H; destruct plan as [|a plan]; cbn [tu_ones] in H;
+      try discriminate; try (inversion H; auto; fail).
+    unfold tu_at in H. destruct (konst d) as [c0|].
+    - destruct (tu_ones run konst (Some l) plan ds) as [ys|e1] eqn:Et; [discriminate|].
+      inversion H; subst. destruct (IH plan e Et) as [H1|[H1|[d' [x [Hd [Hx Hr]]]]]]; auto.
+      right; right. exists d', x. split; [right; exact Hd|auto].
+    - destruct a as [i|i j].
+      + destruct (nth_signed l i) as [x|] eqn:En.
+        * destruct (run d x) as [y|e0] eqn:Er.
+          -- destruct (tu_ones run konst (Some l) plan ds) as [ys|e1] eqn:Et; [discriminate|].
+             inversion H; subst. destruct (IH plan e Et) as [H1|[H1|[d' [x' [Hd [Hx Hr]]]]]]; auto.
+             right; right. exists d', x'. split; [right; exact Hd|auto].
+          -- inversion H; subst. right; right. exists d, x. split; [left; reflexivity|].
+             split; [eapply nth_signed_In; exact En|exact Er].
+        * inversion H; auto.
+      + inversion H; auto.
+  Qed.
+
+  Lemma In_firstn' {A} n : forall (l: list A) x, In x (firstn n l) -> In x l.
+  Proof.
+    induction n as [|n IH]; intros l x H; [destruct H|]. destruct l as [|y l]; [destruct H|].
+    cbn [firstn] in H. destruct H as [H|H]; [left; exact H|right; apply IH; exact H].
+  Qed.
+  Lemma In_skipn' {A} n : forall (l: list A) x, In x (skipn n l) -> In x l.
+  Proof.
+    induction n as [|n IH]; intros l x H; [exact H|]. destruct l as [|y l]; [destruct H|].
+    cbn [skipn] in H. right. apply IH. exact H.
+  Qed.
+
+  Lemma slice_list_In {A} (l: list A) i j x : In x (slice_list l i j) -> In x l.
+  Proof.
+    unfold slice_list. destruct (_ <=? _)%Z; [intros []|].
+    intros H. apply In_firstn' in H. apply In_skipn' in H. exact H.
+  Qed.
+
+  (* Tuple[pre..., *Tuple[t, ...], post...] on a list: IndexError (a head / tail position past the end), or an
+     item's own exception, unchanged; nothing else (TypeError only for a malformed plan, which cu never builds) *)
+  Theorem tupleu_var_exn : forall plan pre u post l e,
+    ue E Q CF (VList l) (UTupleU plan pre (UTupleVar u) post) = Exn e ->
+    e = XIndexError \/ e = XTypeError \/
+    exists u' x, (In u' pre \/ u' = u \/ In u' post) /\ In x l /\ ue E Q CF x u' = Exn e.
+  Proof.
+    intros plan pre u post l e H. cbn [ue] in H. unfold tu_walk in H.
+    set (run := fun (u': pdec) (dx: pdec -> res pv) => dx u') in *.
+    set (items := map (fun x => ue E Q CF x) l) in *.
+    assert (Hrun: forall d dx, In dx items -> run d dx = Exn e -> exists x, In x l /\ ue E Q CF x d = Exn e).
+    { intros d dx Hin Hr. unfold items in Hin. apply in_map_iff in Hin. destruct Hin as [x [Hx Hin]].
+      subst dx. exists x. split; [exact Hin|exact Hr]. }
+    destruct (tu_ones run (const_dec E) (Some items) (firstn (Datatypes.length pre) plan) pre) as [a|e1] eqn:E1; cbn [bind] in H.
+    2:{ inversion H; subst. destruct (tu_ones_exn _ _ _ _ _ _ E1) as [H1|[H1|[d [dx [Hd [Hx Hr]]]]]]; auto.
+        destruct (Hrun d dx Hx Hr) as [x [Hin He]]. right; right. exists d, x. auto. }
+    destruct (nth_error plan (Datatypes.length pre)) as [[i|i j]|]; cbn [bind] in H; try (inversion H; auto; fail).
+    cbn [option_map mid_var] in H.
+    destruct (mapM (run u) (slice_list items i j)) as [m|e2] eqn:E2; cbn [bind] in H.
+    2:{ inversion H; subst. apply mapM_exn in E2. destruct E2 as [dx [Hin Hr]]. apply slice_list_In in Hin.
+        destruct (Hrun u dx Hin Hr) as [x [Hx He]]. right; right. exists u, x. auto. }
+    destruct (tu_ones run (const_dec E) (Some items) (skipn (S (Datatypes.length pre)) plan) post) as [b|e3] eqn:E3; cbn [bind] in H;
+      [discriminate|].
+    inversion H; subst. destruct (tu_ones_exn _ _ _ _ _ _ E3) as [H1|[H1|[d [dx [Hd [Hx Hr]]]]]]; auto.
+    destruct (Hrun d dx Hx Hr) as [x [Hin He]]. right; right. exists d, x. auto.
   Qed.
 End Typed.
